@@ -9,7 +9,7 @@ rsync -a --exclude .git /repo/ "$d/"
 props=${PROPS:-$(python3 -c "import json; print(' '.join(c['property_id'] for c in json.load(open('/verif/MANIFEST.json'))['checks']))")}
 alarms=0
 for p in $props; do
-  o=$(ARCHE_REPO="$d" /verif/bin/archecheck -property "$p" -tier quick -no-evidence 2>&1); rc=$?
+  o=$(ARCHE_REPO="$d" ${ARCHECHECK:-/verif/bin/archecheck} -property "$p" -tier quick -no-evidence 2>&1); rc=$?
   if [ $rc -ne 0 ]; then
     alarms=$((alarms+1))
     echo "ALARM $p exit=$rc"
